@@ -441,6 +441,34 @@ def prefix_attrs(prog) -> tuple[str, str]:
                 found[x.value.right.id] = x.targets[0].attr
         if p1 in found and p2 in found and found[p1] != found[p2]:
             out = (found[p1], found[p2])
+        if out is None:
+            # the context manager written as a class: container() returns Scope(self, prefix, second_prefix) whose __enter__
+            # extends two attributes of the renderer by the stored arguments, in that order
+            from ..loader import ClassInfo
+
+            for x in ast.walk(m.node):
+                if isinstance(x, ast.Return) and isinstance(x.value, ast.Call) and isinstance(x.value.func, (ast.Name, ast.Attribute)):
+                    sc = prog.repo.resolve_expr(x.value.func, m.module, m)
+                    ent = sc.methods.get("__enter__") if isinstance(sc, ClassInfo) else None
+                    init = sc.methods.get("__init__") if isinstance(sc, ClassInfo) else None
+                    if ent is None or init is None:
+                        continue
+                    # constructor parameter -> field it is stored in
+                    stored = {st.value.id: st.targets[0].attr for st in ast.walk(init.node)
+                              if isinstance(st, ast.Assign) and isinstance(st.targets[0], ast.Attribute) and isinstance(st.value, ast.Name)}
+                    argpos = {a.id: i for i, a in enumerate(x.value.args) if isinstance(a, ast.Name)}
+                    ctor_params = init.params[1:]
+                    field_of = {}
+                    for pname in (p1, p2):
+                        if pname in argpos and argpos[pname] < len(ctor_params) and ctor_params[argpos[pname]] in stored:
+                            field_of[stored[ctor_params[argpos[pname]]]] = pname
+                    ext = {}
+                    for y in ast.walk(ent.node):
+                        if isinstance(y, ast.AugAssign) and isinstance(y.op, ast.Add) and isinstance(y.target, ast.Attribute) and isinstance(y.value, ast.Attribute) \
+                                and y.value.attr in field_of:
+                            ext[field_of[y.value.attr]] = y.target.attr
+                    if p1 in ext and p2 in ext and ext[p1] != ext[p2]:
+                        out = (ext[p1], ext[p2])
     if out is None:
         raise AnalysisError("anchor vanished: the renderer's container(prefix, second_prefix) context manager (the two prefix attributes cannot be identified)")
     prog._prefix_attrs = out  # type: ignore[attr-defined]
@@ -1072,6 +1100,13 @@ def _lb(flow, expr: ast.AST | None, node: Node, sym: str, depth: int = 0) -> int
     return None
 
 
+def _expanded_args(prog, fi: FuncInfo, call: ast.Call, node: Node) -> list[ast.AST]:
+    """positional arguments with single-assignment temporaries read through (`n = len(run); acc = max(acc, n)`)"""
+    from ..decide import expand_expr
+
+    return [expand_expr(prog, fi, a, node, strict=False) for a in call.args]
+
+
 def check_fence_bound(ctx: Ctx) -> None:
     rm = get_model(ctx)
     prog, repo = ctx.prog, ctx.repo
@@ -1107,7 +1142,7 @@ def check_fence_bound(ctx: Ctx) -> None:
             name = n.ast.targets[0].id
             if isinstance(v, ast.Call) and isinstance(v.func, ast.Name) and v.func.id == "max" and any(
                 isinstance(a, ast.Name) and a.id == name for a in v.args
-            ) and any(isinstance(a, ast.Call) and isinstance(a.func, ast.Name) and a.func.id == "len" for a in v.args):
+            ) and any(isinstance(a, ast.Call) and isinstance(a.func, ast.Name) and a.func.id == "len" for a in _expanded_args(prog, scan_f, v, n)):
                 loops = [h for h in sflow.cfg.nodes if h.kind == "for" and n in sflow.loop_body_nodes(h)]
                 if loops:
                     acc = (name, n, loops[0])
@@ -1134,7 +1169,8 @@ def check_fence_bound(ctx: Ctx) -> None:
         guards = [b for b, lab in (must_edges(sflow.cfg, loop, an) or set()) if b is not loop]
         ctx.ob("R-BOUND", f"{scan_f.qual} :: every run updates the maximum", not guards,
                "the accumulator update must run for every matched run (no filtering condition inside the loop)", where(scan_f, an))
-        len_arg = next(a for a in an.ast.value.args if isinstance(a, ast.Call) and isinstance(a.func, ast.Name) and a.func.id == "len")
+        len_arg = next(a for a, x in zip(an.ast.value.args, _expanded_args(prog, scan_f, an.ast.value, an))
+                       if isinstance(x, ast.Call) and isinstance(x.func, ast.Name) and x.func.id == "len")
         lsl = prog.slice(scan_f, len_arg, an)
         ctx.ob("R-BOUND", f"{scan_f.qual} :: measured run is the matched run", any(x.kind == "for" for x in lsl.nodes),
                "the measured length must be that of the run matched in this iteration", where(scan_f, an))
